@@ -37,10 +37,10 @@ def run(ctx):
     warnings.filterwarnings("ignore")
     rng = ctx.rng
     ctx.rule = ("(i) bit comparison of real embeddings: densmap=True with dens_lambda=0 or dens_frac=0 vs plain UMAP, same seed and n_epochs "
-                "(11, 30, 200), several datasets / seeds, also the per-epoch flag vs the Lean model's densmapFlag; (ii) output_dens=True: "
+                "(11, 30, 200, and lists such as [40, 15] in any order, with the intermediate embeddings), several datasets / seeds, also the per-epoch flag vs the Lean model's densmapFlag; (ii) output_dens=True: "
                 "(embedding, rad_orig, rad_emb) shapes and finiteness for non-isolated samples, rad_orig vs the weighted mean squared "
                 "graph distance recomputed in float64 from graph_ / graph_dists_ and vs the Lean Radii model, rad_emb vs the same "
-                "quantity on the embedding's own fuzzy kNN graph (squared embedding distances); non-trivial = every fit")
+                "quantity on the embedding's own fuzzy kNN graph (squared embedding distances); unique=True with duplicated rows: one radius per input row, shared by duplicates, equal to the definition; non-trivial = every fit")
     ctx.assumptions += ["bit-identity of the real runs additionally relies on C06 (seeded determinism)"]
     drv = Driver()
     # flag table vs model
@@ -74,6 +74,28 @@ def run(ctx):
                     d = float(np.max(np.abs(e - plain))) if e.shape == plain.shape else float("nan")
                     ctx.violation("reduction", f"densMAP with {label} differs from plain UMAP (max |diff| = {d})", case)
                 ctx.case(key=str(case), nontrivial=True, sample=case if len(ctx.samples) < 3 else None, part="reduction", setting=label, n_epochs=ne)
+
+        # list-valued n_epochs (intermediate embeddings are kept): "equal n_epochs" means the same list, in any order
+        for nel in ([[40, 15], [10, 25, 18], [12, 30]] if ctx.thorough else [[40, 15], [10, 25, 18]][s % 2: s % 2 + 1]):
+            base = dict(n_neighbors=8, random_state=seed, n_epochs=list(nel))
+            try:
+                mp = umap.UMAP(**base).fit(X)
+            except Exception as ex:  # noqa
+                ctx.skip(f"plain UMAP with n_epochs={nel} not applicable: {type(ex).__name__}")
+                continue
+            for label, extra in (("frac=0", dict(densmap=True, dens_frac=0.0)), ("lambda=0", dict(densmap=True, dens_lambda=0.0))):
+                case = {"n": n, "n_epochs": nel, "seed": seed, "setting": label}
+                try:
+                    md = umap.UMAP(**dict(base, n_epochs=list(nel)), **extra).fit(X)
+                except Exception as ex:  # noqa
+                    ctx.violation("exception", f"densMAP fit with n_epochs={nel} raised {type(ex).__name__}: {ex}", case)
+                    continue
+                same = np.array_equal(md.embedding_, mp.embedding_, equal_nan=True)
+                la, lb = getattr(md, "embedding_list_", []), getattr(mp, "embedding_list_", [])
+                same = same and len(la) == len(lb) and all(np.array_equal(a_, b_, equal_nan=True) for a_, b_ in zip(la, lb))
+                if not same:
+                    ctx.violation("reduction", f"densMAP with {label} and n_epochs={nel} differs from plain UMAP with the same n_epochs", case)
+                ctx.case(key=str(case), nontrivial=True, part="reduction-list", setting=label, n_epochs=str(nel))
 
         # zero-weight reduction where the (zero-weighted) density term itself would be non-finite:
         # an isolated sample (phi_sum = 0) and graph neighbours that coincide in the layout (0 * inf)
@@ -151,3 +173,33 @@ def run(ctx):
                     ctx.violation("rad-emb", f"sample {i}: rad_emb = {re[i]}, log weighted mean squared embedding distance to its "
                                              f"fuzzy neighbours = {ref_e[i]}", dict(case, densmap=dm))
                 ctx.case(key=str(case) + str(dm), nontrivial=True, part="radii", densmap=dm)
+
+        # radii with unique=True: one value per *input* row, duplicated rows share their radius, values follow the definition
+        Xu = X.copy()
+        srcs = rng.integers(0, len(Xu), 8)
+        Xu[rng.integers(0, len(Xu), 8)] = Xu[srcs]
+        case = {"n": len(Xu), "variant": "unique=True", "seed": seed}
+        try:
+            m = umap.UMAP(n_neighbors=8, random_state=seed, n_epochs=30, output_dens=True, unique=True)
+            emb, ro, re = m.fit_transform(Xu)
+        except Exception as ex:  # noqa
+            ctx.violation("exception", f"output_dens with unique=True raised {type(ex).__name__}: {ex}", case)
+            continue
+        nu = len(Xu)
+        if emb.shape != (nu, 2) or np.shape(ro) != (nu,) or np.shape(re) != (nu,):
+            ctx.violation("output-dens-shape", f"unique=True: shapes {emb.shape}, {np.shape(ro)}, {np.shape(re)} for {nu} input rows", case)
+        else:
+            _, uidx, uinv = np.unique(Xu, return_index=True, return_inverse=True, axis=0)
+            uinv = np.asarray(uinv).ravel()
+            if not (np.array_equal(ro, ro[uidx][uinv], equal_nan=True) and np.array_equal(re, re[uidx][uinv], equal_nan=True)):
+                ctx.violation("radii-unique", "identical input rows received different radii", case)
+            ref, _ = radii_reference(m.graph_, m.graph_dists_, 30)
+            if m.graph_.shape[0] == len(uidx):
+                refx = ref[uinv]
+                ok = np.isfinite(refx)
+                if np.max(np.abs(ro[ok] - refx[ok])) > 2e-2:
+                    i = int(np.argmax(np.where(ok, np.abs(ro - refx), 0)))
+                    ctx.violation("rad-orig", f"unique=True, input row {i}: rad_orig = {ro[i]}, log weighted mean squared graph distance of "
+                                              f"its distinct sample = {refx[i]}", case)
+        ctx.case(key=str(case) + str(Xu[:2].tolist()), nontrivial=True, part="radii-unique")
+
